@@ -435,7 +435,9 @@ func (t *travScen) addNodes(cs []cand) {
 func (t *travScen) play() {
 	r := t.r.rng
 	defer func() {
-		close(t.quit)
+		if t.quit != nil {
+			close(t.quit)
+		}
 		// never leave goroutines parked
 		t.mu.Lock()
 		for k, p := range t.parked {
